@@ -185,7 +185,6 @@ theorem step_sig (cfg : Cfg) (s : St) (e : Ev) : sigObs (step cfg s e).2 = expec
       simp only []
       split
       · rename_i hc
-        simp only [hc, if_true]
         split
         · rfl
         · simp only [andThen_snd, sig_append]
@@ -194,9 +193,7 @@ theorem step_sig (cfg : Cfg) (s : St) (e : Ev) : sigObs (step cfg s e).2 = expec
             intro d b; unfold drainDone; split <;> rfl
           rw [hm]
           rfl
-      · rename_i hc
-        simp only [hc]
-        split
+      · split
         · split
           · rfl
           · split
@@ -213,17 +210,24 @@ theorem step_sig (cfg : Cfg) (s : St) (e : Ev) : sigObs (step cfg s e).2 = expec
     · simp [sigObs, bg]
   | fire id =>
     simp only [step, expectedSig]
-    split
-    · simp [sigObs, bg]
-    · split
+    cases hf : s.timers.filter (·.id == id) with
+    | nil => simp [sigObs, bg]
+    | cons t rest =>
+      simp only []
+      split
       · simp [sigObs, bg]
-      · split
-        · rw [joinAndSync_sig]; rfl
-        · rw [joinAndSync_sig]; rfl
-        · simp only [andThen_snd, sig_append]
+      · cases hk : t.kind with
+        | rejoin => simp only []; rw [joinAndSync_sig]; rfl
+        | retry => simp only []; rw [joinAndSync_sig]; rfl
+        | hb =>
+          simp only [andThen_snd, sig_append]
           split
-          · split <;> simp [sig_bg (hbSchedule_bg _ _)]
-          · split <;> simp [sig_bg (hbSchedule_bg _ _), sigObs, bg]
+          · split
+            · rw [sig_bg (hbSchedule_bg _ _)]; rfl
+            · rfl
+          · split
+            · rw [sig_bg (hbSchedule_bg _ _)]; simp [sigObs, bg]
+            · simp [sigObs, bg]
   | advance dt =>
     simp only [step, expectedSig]
     split <;> simp [sigObs, bg]
